@@ -76,9 +76,13 @@ fn dev(d: f64) -> SurfaceDeviation2 {
 }
 
 /// n <= 3 symbolic non-NaN deviations pushed one by one
-fn any_set<S: Src>(s: &mut S) -> (SurfaceDeviationSet2, [f64; MAX_N], usize) {
+/// the symbolic length is split into concrete cases before anything is built (keeps every Vec length concrete for CBMC)
+fn pick_n<S: Src>(s: &mut S, max: usize) -> usize {
     let n = s.usize();
-    s.assume(n <= MAX_N);
+    s.assume(n <= max);
+    if n == 0 { 0 } else if n == 1 { 1 } else if n == 2 { 2 } else { 3 }
+}
+fn any_set<S: Src>(s: &mut S, n: usize) -> (SurfaceDeviationSet2, [f64; MAX_N], usize) {
     let d = [s.f64(), s.f64(), s.f64()];
     s.assume(!d[0].is_nan() && !d[1].is_nan() && !d[2].is_nan());
     let mut set = SurfaceDeviationSet2::default();
@@ -97,7 +101,10 @@ fn first_arg(d: &[f64; MAX_N], n: usize, want_max: bool) -> Option<usize> {
 
 /// push keeps the extremes right after every push (checked through the public API only)
 pub fn h_devset_push<S: Src>(s: &mut S) {
-    let (set, d, n) = any_set(s);
+    match pick_n(s, MAX_N) { 0 => h_devset_push_n(s, 0), 1 => h_devset_push_n(s, 1), 2 => h_devset_push_n(s, 2), _ => h_devset_push_n(s, 3) }
+}
+fn h_devset_push_n<S: Src>(s: &mut S, n: usize) {
+    let (set, d, n) = any_set(s, n);
     s.check(set.len() == n, "push appends exactly one element");
     if n > 0 { s.check(set[0].deviation.to_bits() == d[0].to_bits(), "pushed value 0 stored unchanged"); }
     if n > 1 { s.check(set[1].deviation.to_bits() == d[1].to_bits(), "pushed value 1 stored unchanged"); }
@@ -120,7 +127,10 @@ pub fn h_devset_push<S: Src>(s: &mut S) {
     }
 }
 pub fn h_devset_zone<S: Src>(s: &mut S) {
-    let (set, d, n) = any_set(s);
+    match pick_n(s, MAX_N) { 0 => h_devset_zone_n(s, 0), 1 => h_devset_zone_n(s, 1), 2 => h_devset_zone_n(s, 2), _ => h_devset_zone_n(s, 3) }
+}
+fn h_devset_zone_n<S: Src>(s: &mut S, n: usize) {
+    let (set, d, n) = any_set(s, n);
     let r = set.symmetrical_zone_size();
     if n == 0 {
         s.check(r == 0.0, "symmetrical zone of the empty set is 0");
@@ -158,9 +168,7 @@ pub fn greatest_not_above(v: &[f64], x: f64) -> Option<usize> {
     r
 }
 
-fn any_domain<S: Src>(s: &mut S) -> (DiscreteDomain, [f64; MAX_N], usize) {
-    let n = s.usize();
-    s.assume(n <= MAX_N);
+fn any_domain<S: Src>(s: &mut S, n: usize) -> (DiscreteDomain, [f64; MAX_N], usize) {
     let v = [s.f64(), s.f64(), s.f64()];
     s.assume(v[0].is_finite() && v[1].is_finite() && v[2].is_finite());
     s.assume((n < 2 || v[0] <= v[1]) && (n < 3 || v[1] <= v[2]));
@@ -178,7 +186,10 @@ fn any_domain<S: Src>(s: &mut S) -> (DiscreteDomain, [f64; MAX_N], usize) {
     }
 }
 pub fn h_index_of<S: Src>(s: &mut S) {
-    let (d, v, n) = any_domain(s);
+    match pick_n(s, MAX_N) { 0 => h_index_of_n(s, 0), 1 => h_index_of_n(s, 1), 2 => h_index_of_n(s, 2), _ => h_index_of_n(s, 3) }
+}
+fn h_index_of_n<S: Src>(s: &mut S, n: usize) {
+    let (d, v, n) = any_domain(s, n);
     let x = s.f64();
     s.assume(!x.is_nan());
     let r = d.index_of(x);
@@ -189,7 +200,10 @@ pub fn h_index_of<S: Src>(s: &mut S) {
     }
 }
 pub fn h_tolmap_get<S: Src>(s: &mut S) {
-    let (d, v, n) = any_domain(s);
+    match pick_n(s, MAX_N) { 0 => h_tolmap_get_n(s, 0), 1 => h_tolmap_get_n(s, 1), 2 => h_tolmap_get_n(s, 2), _ => h_tolmap_get_n(s, 3) }
+}
+fn h_tolmap_get_n<S: Src>(s: &mut S, n: usize) {
+    let (d, v, n) = any_domain(s, n);
     let x = s.f64();
     s.assume(!x.is_nan());
     // zone k is recognisable by its bounds
@@ -234,11 +248,11 @@ mod proofs {
 
     // in-place contracts (src/metrology/surface_deviation.rs) on the read side, state built by <= 3 pushes (BOUNDED)
     #[kani::proof_for_contract(crate::metrology::surface_deviation::SurfaceDeviationSet::<2>::max)] #[kani::unwind(5)]
-    fn contract_devset_max() { let (set, _, n) = any_set(&mut Sym); kani::cover!(n == 3); set.max(); }
+    fn contract_devset_max() { match pick_n(&mut Sym, MAX_N) { 0 => { any_set(&mut Sym, 0).0.max(); } 1 => { any_set(&mut Sym, 1).0.max(); } 2 => { any_set(&mut Sym, 2).0.max(); } _ => { let (set, d, _) = any_set(&mut Sym, 3); kani::cover!(d[0] < d[1]); set.max(); } } }
     #[kani::proof_for_contract(crate::metrology::surface_deviation::SurfaceDeviationSet::<2>::min)] #[kani::unwind(5)]
-    fn contract_devset_min() { let (set, _, n) = any_set(&mut Sym); kani::cover!(n == 3); set.min(); }
+    fn contract_devset_min() { match pick_n(&mut Sym, MAX_N) { 0 => { any_set(&mut Sym, 0).0.min(); } 1 => { any_set(&mut Sym, 1).0.min(); } 2 => { any_set(&mut Sym, 2).0.min(); } _ => { let (set, d, _) = any_set(&mut Sym, 3); kani::cover!(d[0] < d[1]); set.min(); } } }
     #[kani::proof_for_contract(crate::metrology::surface_deviation::SurfaceDeviationSet::<2>::symmetrical_zone_size)] #[kani::unwind(5)]
-    fn contract_devset_zone() { let (set, _, n) = any_set(&mut Sym); kani::cover!(n == 3); set.symmetrical_zone_size(); }
+    fn contract_devset_zone() { match pick_n(&mut Sym, MAX_N) { 0 => { any_set(&mut Sym, 0).0.symmetrical_zone_size(); } 1 => { any_set(&mut Sym, 1).0.symmetrical_zone_size(); } 2 => { any_set(&mut Sym, 2).0.symmetrical_zone_size(); } _ => { let (set, d, _) = any_set(&mut Sym, 3); kani::cover!(d[0] < d[1]); set.symmetrical_zone_size(); } } }
 
     #[kani::proof] #[kani::unwind(5)] fn devset_push() { h_devset_push(&mut Sym); kani::cover!(true); }
     #[kani::proof] #[kani::unwind(5)] fn devset_zone() { h_devset_zone(&mut Sym); kani::cover!(true); }
